@@ -229,7 +229,8 @@ func NewRun(property string) *Run {
 		tier = "quick"
 	}
 	return &Run{Property: property, Seed: seed, Tier: tier, Replay: os.Getenv("VERIF_REPLAY"),
-		distinct: map[string]bool{}, hist: map[string]int{}, start: time.Now(), extra: map[string]interface{}{}}
+		distinct: map[string]bool{}, hist: map[string]int{}, start: time.Now(), extra: map[string]interface{}{},
+		findings: []Finding{}, samples: []interface{}{}}
 }
 
 func (r *Run) Thorough() bool { return r.Tier == "thorough" }
